@@ -20,6 +20,7 @@ import (
 	"net"
 	"net/http"
 	"strconv"
+	"strings"
 
 	"github.com/caddyserver/certmagic"
 	"github.com/tmpim/casket"
@@ -211,10 +212,16 @@ func redirPlaintextHost(cfg *SiteConfig) *SiteConfig {
 			toURL := "https://"
 			requestHost, _, err := net.SplitHostPort(r.Host)
 			if err != nil {
-				requestHost = r.Host // Host did not contain a port, so use the whole value
+				// Host did not contain a port, so use the whole value
+				// (without the brackets of an IPv6 literal, like SplitHostPort)
+				requestHost = strings.TrimSuffix(strings.TrimPrefix(r.Host, "["), "]")
 			}
 			if redirPort == "" {
-				toURL += requestHost
+				if strings.Contains(requestHost, ":") {
+					toURL += "[" + requestHost + "]" // IPv6 literal
+				} else {
+					toURL += requestHost
+				}
 			} else {
 				toURL += net.JoinHostPort(requestHost, redirPort)
 			}
